@@ -1,8 +1,10 @@
 """C19 a2ml_specification! typed access (structural clauses; DESIGN.md section 3, C19)"""
-from . import mir, panics, scopes
+from . import mir, panics, scopes, plumbing
 
 
 def run(chk):
     prog = mir.prog()
     panics.run_scope(chk, "R19-total", prog, scopes.ifdata_access_scope(prog), what="panic obligations in the GenericIfData::get_* accessors (structural mismatch must yield Err, not a panic)", floor=4)
+    plumbing.r19_sibling(chk)
+    plumbing.r05_plumb(chk, rule="R19-plumb", files=("a2lfile/src/a2ml.rs",))
     chk.assumptions += ["not decided: value round trip through store/load"]
